@@ -475,7 +475,14 @@ class UTPM(Ring, RawAlgorithmsMixIn):
         return self * rhs
 
     def __rtruediv__(self, rhs):
-        tmp = self.zeros_like()
+        # lift the constant to a polynomial of degree zero whose coefficient
+        # shape is the NumPy broadcast of both operands (the constant may have
+        # more dimensions than self) and whose dtype can hold the constant
+        rhs = numpy.asarray(rhs)
+        D,P = self.data.shape[:2]
+        shp = tuple(numpy.broadcast_shapes(rhs.shape, self.data.shape[2:]))
+        dtype = numpy.promote_types(self.data.dtype, rhs.dtype)
+        tmp = UTPM(numpy.zeros((D,P) + shp, dtype=dtype))
         tmp.data[0,...] = rhs
         return tmp/self
 
